@@ -328,6 +328,24 @@ def run(ctx):
         judge_pkg(rep, "generated", json.dumps(c["design"])[:4000], im["pkg"], im["accept"], mo["wf_problems"])
     rep.extra["generated_exported"] = nexp
     export_model_stream(ctx, [dict(c, accept=False) for c in cases[: (120 if ctx.quick else 2000)]])
+    # 1a. designs that must be refused (C02's single-fault mutants: a missing / extra connection, a width mismatch, an index out of
+    # range, a bad reference, …): whatever is exported of them all the same is a package like any other and has to be well-formed
+    c02 = __import__("props.c02", fromlist=["x"])
+    bases = [c for c in cases if c.get("style", "proc") == "proc"][: (25 if ctx.quick else 400)]
+    muts = list(c02.corpus())
+    for c in bases:
+        try:
+            muts += c02.mutants(c["design"], ctx.rng, per_class=2)
+        except Exception:  # noqa  (a design without a site for some fault class)
+            pass
+    mcases = [{"design": m["design"], "style": "proc", "accept": True, "netlist": False, "mutant": m["class"]} for m in muts]
+    nmx = 0
+    for c, im, mo in designs.run_designs(ctx, mcases):
+        rep.count("mutants", json.dumps(c["design"])[:3000] + c["mutant"], nontrivial="pkg" in im)
+        if "pkg" in im:
+            nmx += 1
+            judge_pkg(rep, "mutants_exported", c["mutant"] + ":" + json.dumps(c["design"])[:4000], im["pkg"], im["accept"], mo["wf_problems"])
+    rep.extra["mutants"] = {"tried": len(mcases), "exported": nmx}
     # the exporter's traversal with names (exportNamedTops, theorem exported_names_unique) against the real one
     SN.run(ctx, [gen_named_dag(ctx.rng) for _ in range(300 if ctx.quick else 6000)])
     # 1b. lists of tops: random sub-lists and orders of the modules of a design, exported in one call
